@@ -107,9 +107,11 @@ class Run:
         self.obligations = []
         self.imprecise = []
         self.calls = []        # ghost call log
+        self.contract_calls = []
         self.ghost = {}
         self.trace = []
         self.clock = None
+        self.clock_first = None
         self.checker = checker
         self.inputs = {}       # name -> z3 const (for model extraction)
         self.n_solver = 0
@@ -242,6 +244,8 @@ class Run:
         self.inputs[nm] = t
         if self.clock is not None:
             self.assume(t >= self.clock)
+        if self.clock_first is None:
+            self.clock_first = t
         self.clock = t
         return VReal(t, unit)
 
